@@ -28,7 +28,11 @@ type Parser struct {
 	// one wins), recording the fact in Parsed.MIDOrder.
 	LenientMIDOrder bool
 	NoPal           bool
-	p               Parsed
+	// OnNum, if set, is called for every number read after the metadata, in
+	// stream order: kind 'n' natural, 'r' real, 'c' coordinate, 'z' zero-to-one;
+	// n is the form length; nat is set for naturals.
+	OnNum func(kind byte, n int, f float32, nat uint32)
+	p     Parsed
 }
 
 func finite(f float32) bool { return !math.IsNaN(float64(f)) && !math.IsInf(float64(f), 0) }
@@ -82,7 +86,7 @@ func (ps *Parser) Parse(b []byte) *Parsed {
 		case 0:
 			var v [4]float32
 			for i := range v {
-				f, n := Coord(b[pos:])
+				f, n := ps.num('c', b[pos:])
 				if n == 0 {
 					return ps.fail("viewbox number")
 				}
@@ -199,11 +203,11 @@ func (ps *Parser) Parse(b []byte) *Parsed {
 				var n int
 				switch (op - 0xa8) >> 3 {
 				case 0:
-					f, n = Real(b[pos:])
+					f, n = ps.num('r', b[pos:])
 				case 1:
-					f, n = Coord(b[pos:])
+					f, n = ps.num('c', b[pos:])
 				default:
-					f, n = ZeroToOne(b[pos:])
+					f, n = ps.num('z', b[pos:])
 				}
 				if n == 0 {
 					return ps.fail("number operand")
@@ -211,12 +215,12 @@ func (ps *Parser) Parse(b []byte) *Parsed {
 				pos += n
 				p.Calls = append(p.Calls, rec.Call{M: rec.MSetNReg, Adj: adj, Incr: incr, A: [6]float32{f}})
 			case op < 0xc7:
-				x, n := Coord(b[pos:])
+				x, n := ps.num('c', b[pos:])
 				if n == 0 {
 					return ps.fail("start path x")
 				}
 				pos += n
-				y, n := Coord(b[pos:])
+				y, n := ps.num('c', b[pos:])
 				if n == 0 {
 					return ps.fail("start path y")
 				}
@@ -224,12 +228,12 @@ func (ps *Parser) Parse(b []byte) *Parsed {
 				p.Calls = append(p.Calls, rec.Call{M: rec.MStartPath, Adj: op & 7, A: [6]float32{x, y}})
 				drawing = true
 			case op == 0xc7:
-				l0, n := Real(b[pos:])
+				l0, n := ps.num('r', b[pos:])
 				if n == 0 {
 					return ps.fail("lod0")
 				}
 				pos += n
-				l1, n := Real(b[pos:])
+				l1, n := ps.num('r', b[pos:])
 				if n == 0 {
 					return ps.fail("lod1")
 				}
@@ -295,7 +299,7 @@ func (ps *Parser) Parse(b []byte) *Parsed {
 			c := rec.Call{M: m}
 			if nc >= 0 {
 				for i := 0; i < nc; i++ {
-					f, n := Coord(b[pos:])
+					f, n := ps.num('c', b[pos:])
 					if n == 0 {
 						return ps.fail("coordinate")
 					}
@@ -304,27 +308,27 @@ func (ps *Parser) Parse(b []byte) *Parsed {
 				}
 			} else {
 				for i := 0; i < 2; i++ {
-					f, n := Coord(b[pos:])
+					f, n := ps.num('c', b[pos:])
 					if n == 0 {
 						return ps.fail("arc radius")
 					}
 					pos += n
 					c.A[i] = f
 				}
-				f, n := ZeroToOne(b[pos:])
+				f, n := ps.num('z', b[pos:])
 				if n == 0 {
 					return ps.fail("arc angle")
 				}
 				pos += n
 				c.A[2] = f
-				fl, n := Natural(b[pos:])
+				fl, n := ps.nat(b[pos:])
 				if n == 0 {
 					return ps.fail("arc flags")
 				}
 				pos += n
 				c.LA, c.SW = fl&1 != 0, fl&2 != 0
 				for i := 3; i < 5; i++ {
-					f, n := Coord(b[pos:])
+					f, n := ps.num('c', b[pos:])
 					if n == 0 {
 						return ps.fail("arc end")
 					}
@@ -338,4 +342,29 @@ func (ps *Parser) Parse(b []byte) *Parsed {
 	p.OK = true
 	p.EndsInPath = drawing
 	return p
+}
+
+func (ps *Parser) num(kind byte, b []byte) (float32, int) {
+	var f float32
+	var n int
+	switch kind {
+	case 'r':
+		f, n = Real(b)
+	case 'c':
+		f, n = Coord(b)
+	default:
+		f, n = ZeroToOne(b)
+	}
+	if n != 0 && ps.OnNum != nil {
+		ps.OnNum(kind, n, f, 0)
+	}
+	return f, n
+}
+
+func (ps *Parser) nat(b []byte) (uint32, int) {
+	u, n := Natural(b)
+	if n != 0 && ps.OnNum != nil {
+		ps.OnNum('n', n, 0, u)
+	}
+	return u, n
 }
